@@ -489,6 +489,19 @@ fn oracle(c: &Case, st: &mut Stats) -> Result<(), String> {
             st.label("repair of a cut archive: refused");
         }
     }
+    // ---- the intact archive repaired into standard output: what arrives there is the archive and nothing else
+    if c.reader_key % 2 == 0 {
+        let mut a = vec!["repair".to_string(), "-i".into(), archive.clone(), "-l".into()];
+        if let Some(k) = key_for(&cur, c.reader_key) {
+            a.push("-k".into());
+            a.push(k);
+        }
+        a.extend(["-o".to_string(), "-".to_string()]);
+        let o = run_ok(&a, &d, "repair of the intact archive to standard output")?;
+        std::fs::write(d.join("rep-intact-stdout.mla"), &o.stdout).map_err(|e| format!("HARNESS: {e}"))?;
+        st.label("repair of the intact archive to stdout: verified");
+        verify(&s, "rep-intact-stdout.mla", None, &expected, "repaired from the intact archive with -o -", false)?;
+    }
     // ---- negative runs on the last archive
     let enc = effective_layers(&cur) & 1 != 0;
     let first = expected.keys().next().unwrap().clone();
